@@ -402,6 +402,12 @@ class Executor:
             return self.binop(rv.a[0], a, b)
         if k == "unop":
             a = self.operand(st, fr, rv.a[1])
+            if rv.a[0] == "PtrMetadata":
+                # metadata of a slice pointer = its length (sequences have a concrete length per path)
+                t = self.deref(st, a)
+                if isinstance(t, Adt) and t.ty in ("[]", "Vec", "SStr"):
+                    return bv("usize", len(t.fields))
+                raise Inconclusive("PtrMetadata of %r" % (t,))
             return self.unop(rv.a[0], a)
         if k == "cast":
             a = self.operand(st, fr, rv.a[0])
